@@ -2,6 +2,7 @@ package core
 
 import (
 	"fmt"
+	"go/token"
 	"strings"
 
 	"golang.org/x/tools/go/ssa"
@@ -66,8 +67,89 @@ func EdgeFacts(fn *ssa.Function, atoms ...*Atom) []EdgeFact {
 				out = append(out, EdgeFact{Edge{b, b.Succs[1]}, a, onF > 0})
 			}
 		}
+		// "found := slices.IndexFunc(xs, pred) >= 0" and friends: on the found edge the
+		// predicate holds for the element that was found
+		if pc, foundOnTrue, ok := searchFound(cond); ok {
+			if neg {
+				foundOnTrue = !foundOnTrue
+			}
+			for _, a := range atoms {
+				pcc, pneg := StripNot(pc)
+				onT, onF := a.Match(pcc)
+				if pneg {
+					onT, onF = onF, onT
+				}
+				_ = onF
+				if onT != 0 {
+					e := Edge{b, b.Succs[0]}
+					if !foundOnTrue {
+						e = Edge{b, b.Succs[1]}
+					}
+					out = append(out, EdgeFact{e, a, onT > 0})
+				}
+			}
+		}
 	}
 	return out
+}
+
+// searchFound recognises the result test of a library search with a predicate closure:
+// slices.IndexFunc(xs, f) >= 0 / != -1 / > -1 (found on the true edge), < 0 / == -1
+// (found on the false edge), slices.ContainsFunc(xs, f). It returns the boolean expression
+// the closure returns.
+func searchFound(cond ssa.Value) (pred ssa.Value, foundOnTrue bool, ok bool) {
+	closureCond := func(v ssa.Value) (ssa.Value, bool) {
+		mc, isMC := Strip(v).(*ssa.MakeClosure)
+		if !isMC {
+			return nil, false
+		}
+		fn := mc.Fn.(*ssa.Function)
+		var ret ssa.Value
+		n := 0
+		Instrs(fn, func(in ssa.Instruction) {
+			if r, isR := in.(*ssa.Return); isR && len(r.Results) == 1 {
+				n++
+				ret = r.Results[0]
+			}
+		})
+		if n != 1 {
+			return nil, false
+		}
+		return ret, true
+	}
+	isSearch := func(v ssa.Value, name string) (ssa.Value, bool) {
+		cl, isCall := Strip(v).(*ssa.Call)
+		if !isCall {
+			return nil, false
+		}
+		id, okID := Callee(&cl.Call)
+		if !okID || id.Pkg != "slices" || !strings.HasPrefix(id.Name, name) || len(cl.Call.Args) != 2 {
+			return nil, false
+		}
+		return closureCond(cl.Call.Args[1])
+	}
+	if p, ok := isSearch(cond, "ContainsFunc"); ok {
+		return p, true, true
+	}
+	op, x, y, isCmp := Cmp(cond)
+	if !isCmp {
+		return nil, false, false
+	}
+	p, okS := isSearch(x, "IndexFunc")
+	if !okS {
+		return nil, false, false
+	}
+	k, isC := ConstInt(y)
+	if !isC {
+		return nil, false, false
+	}
+	switch {
+	case (op == token.GEQ && k == 0) || (op == token.NEQ && k == -1) || (op == token.GTR && k == -1):
+		return p, true, true
+	case (op == token.LSS && k == 0) || (op == token.EQL && k == -1) || (op == token.LEQ && k == -1):
+		return p, false, true
+	}
+	return nil, false, false
 }
 
 // shortCircuit decomposes a boolean VALUE built with && / || (go/ssa lowers these to a
